@@ -13,6 +13,12 @@ Streams (every run)
           (b) property oracle - FORD's permission of every entity of a *legal* program ==
           `spec_access` (Python, written from the standard) and the Lean `fortranAccess`
           agrees with the Python oracle.
+          Entity kind `specific` = a procedure declared by an interface body inside a generic interface
+          (a module entity of its own: module default, or the access statement naming *it*; a statement that
+          names only the generic does not touch it).
+          (c) export oracle - the module's pub_procs / pub_vars / pub_types / pub_absints (what other scopes get
+          by use association, built in _cleanup *before* correlate) hold exactly the entities whose Fortran
+          accessibility is not private.
   wild  : random programs that need not be legal (several bare statements, attribute and
           statement on the same entity, `protected ::` statements, repeated access words,
           constructor interfaces, components after CONTAINS ...): correspondence only.
@@ -29,19 +35,29 @@ from .common import Driver, Report, lean_prove
 PROP = "C04"
 PCODE = {"public": "u", "private": "r", "protected": "t"}
 KINDS = ["variable", "parameter", "type", "subroutine", "function", "generic", "abstract", "operator",
-         "component", "binding"]
+         "component", "binding", "specific"]
 OPERATORS = ["operator(+)", "operator(-)", "operator(*)", "operator(.dot.)", "operator(==)", "assignment(=)",
              "operator(.x.)", "operator(<)"]
 
 F_LATE = "C04-late-bare-private"
 F_PROT_PRIV = "C04-protected-overrides-private"
 F_PROT_LOST = "C04-protected-lost-after-public"
+F_SPEC_STMT = "C04-specific-access-statement-ignored"
+F_CTOR_STMT = "C04-constructor-access-statement-ignored"
+F_SAME_NAME = "C04-self-named-generic-access-statement-ignored"
+VARIANT = "p"  # set by run(): what probe_variant found in the code under test
+F_CTOR_ATTR = "C04-constructor-export-before-correlate"
+TABS = (("procs", "pub_procs"), ("vars", "pub_vars"), ("types", "pub_types"), ("absints", "pub_absints"))
+TAB_OF = {"var": "vars", "type": "types", "absiface": "absints", "func": "procs", "sub": "procs", "iface": "procs",
+          "spec": "procs"}
 
 
 # ---------------------------------------------------------------------------
 # abstract programs
 #   stmt := ("bare", perm) | ("access", word, [names]) | ("var", [names], [attrs], is_param)
 #         | ("type", name, [attrs], body) | ("iface", kind, name, [procs]) | ("proc", is_func, name)
+#           (procs of a generic interface: "mp_x" = `module procedure x` reference, anything else = the name of
+#            a specific procedure declared by an interface body; `model_view` splits them: procs, refs)
 #         | ("contains",) | ("other", text)
 #   body stmt := ("bare", perm) | ("contains",) | ("comp", [names], [attrs]) | ("bind", generic, [names], [attrs])
 #         | ("other", text)
@@ -80,7 +96,8 @@ def enc_stmt(s):
     if k == "type":
         return "T:" + s[1] + ":" + "".join(acode(a) for a in s[2]) + ":" + enc_body(s[3])
     if k == "iface":
-        return "I:" + {"generic": "g", "abstract": "a", "plain": "p"}[s[1]] + ":" + s[2] + ":" + ",".join(s[3])
+        return "I:" + {"generic": "g", "abstract": "a", "plain": "p"}[s[1]] + ":" + s[2] + ":" + ",".join(s[3]) \
+            + ":" + ",".join(s[4] if len(s) > 4 else [])
     if k == "proc":
         return ("F:" if s[1] else "S:") + s[2]
     if k == "contains":
@@ -183,8 +200,11 @@ def render(rng, scope, name, stmts, parent="mparent"):
                 for p in procs:
                     if p.startswith("mp_"):
                         L.append(f"{ind}  module procedure {p[3:]}")
+                    elif rng.random() < 0.6:
+                        L += [f"{ind}  subroutine {rname(rng, p)}(x)", f"{ind}    integer :: x", f"{ind}  end subroutine {p}"]
                     else:
-                        L += [f"{ind}  subroutine {p}(x)", f"{ind}    integer :: x", f"{ind}  end subroutine {p}"]
+                        L += [f"{ind}  function {rname(rng, p)}(x) result(r)", f"{ind}    real :: x", f"{ind}    integer :: r",
+                              f"{ind}  end function {p}"]
                 L.append(ind + rng.choice(["end interface", f"end interface {iname}"]))
             else:
                 L.append(ind + ("abstract interface" if kind == "abstract" else "interface"))
@@ -275,6 +295,9 @@ def spec_module(scope, stmts):
         elif k == "iface":
             if s[1] == "generic":
                 exp[("iface", s[2])] = access(s[2], [])
+                # an interface body declares the specific procedure as an entity of the module in its own right
+                for p in s[3]:
+                    exp[("spec", s[2], p)] = access(p, [])
             else:
                 for p in s[3]:
                     exp[("absiface" if s[1] == "abstract" else "iface", p)] = access(p, [])
@@ -285,6 +308,23 @@ def spec_module(scope, stmts):
         if key[0] == "iface" and key[1] in types:
             exp[key] = types[key[1]]
     return exp
+
+
+def spec_exports(exp):
+    """what the module makes accessible by use association: {(table, name): entity key} of every entity whose
+    accessibility is not private (PROTECTED variables are accessible)"""
+    out = {}
+    allk = {}
+    for key, perm in exp.items():
+        tab = TAB_OF.get(key[0])
+        if tab is None:
+            continue
+        name = key[-1]
+        if perm != "private":
+            out[(tab, name)] = key
+        if allk.get((tab, name), ("",))[0] != "iface":
+            allk[(tab, name)] = key  # a generic named like one of its specific procedures: the dict entry is the generic
+    return out, allk
 
 
 def legality(scope, stmts):
@@ -299,6 +339,7 @@ def legality(scope, stmts):
     seen_contains = False
     count = {}
     declared = {}
+    self_named = {s[2] for s in stmts if s[0] == "iface" and s[1] == "generic" and "mp_" + s[2] in s[3]}
     for s in stmts:
         k = s[0]
         if k == "contains":
@@ -359,7 +400,8 @@ def legality(scope, stmts):
                         len([b for b in part_stmts[cut:] if b[0] == "bare"]) > 1:
                     return "two private statements in one part"
         elif k == "iface":
-            names = [("iface", s[2], [])] if s[1] == "generic" else [("x", p, []) for p in s[3]]
+            names = ([("iface", s[2], [])] + [("spec", p, []) for p in s[3] if not p.startswith("mp_")]) \
+                if s[1] == "generic" else [("x", p, []) for p in s[3]]
         elif k == "proc":
             names = [("proc", s[2], [])]
         for cat, n, attrs in names:
@@ -369,7 +411,8 @@ def legality(scope, stmts):
             count[n] = count.get(n, 0) + len(acc)
             if len([a for a in attrs if a == "protected"]) > 1:
                 return "protected twice"
-            if n in declared and not ({declared[n], cat} == {"type", "iface"}):
+            if n in declared and not ({declared[n], cat} == {"type", "iface"}) \
+                    and not ({declared[n], cat} == {"proc", "iface"} and n in self_named):
                 return "name declared twice"
             declared[n] = cat
     for s in stmts:
@@ -384,14 +427,24 @@ def legality(scope, stmts):
     return None
 
 
+def default_at(stmts, pos):
+    """the default FORD has in force when it constructs the entity of statement `pos` (last bare statement before it)"""
+    d = "public"
+    for s in stmts[:pos]:
+        if s[0] == "bare":
+            d = s[1]
+    return d
+
+
 def classify(scope, stmts, key, expected, observed):
-    """Known defect classes of the unchanged tree (decidable descriptions, see known_findings/C04.json)."""
+    """Known defect classes of the unchanged tree (decidable descriptions, see known_findings/C04.json).
+    `stmts` is the model view of the program."""
     if scope != "m":
         return None
     cat = key[0]
     if cat in ("comp", "bind"):
         return None
-    name = key[1]
+    name = key[-1]
     attrs = []
     pos = None
     for i, s in enumerate(stmts):
@@ -399,6 +452,8 @@ def classify(scope, stmts, key, expected, observed):
             attrs, pos = s[2], i
         elif s[0] == "type" and cat == "type" and s[1] == name:
             attrs, pos = s[2], i
+        elif s[0] == "iface" and cat == "spec" and s[1] == "generic" and s[2] == key[1] and name in s[3]:
+            pos = i
         elif s[0] == "iface" and cat in ("iface", "absiface") and (s[2] == name if s[1] == "generic" else name in s[3]):
             pos = i
             # constructor interface: follows its type
@@ -413,12 +468,50 @@ def classify(scope, stmts, key, expected, observed):
     has_prot = "protected" in attrs or "protected" in named
     explicit = first_access(attrs) or first_access(named)
     late_private = any(s[0] == "bare" and s[1] == "private" for s in stmts[pos + 1:])
+    if cat == "spec":
+        # process_attribs never looks at the interface bodies of a generic interface: the specific procedure keeps
+        # the default that was in force when the block was parsed
+        if explicit is not None and expected == explicit and observed == default_at(stmts, pos) and not has_prot \
+                and "s" not in VARIANT:
+            return F_SPEC_STMT
+        if explicit is None and late_private and expected == "private" and observed == "public":
+            return F_LATE
+        return None
+    if cat == "iface" and explicit is not None and "a" not in VARIANT and expected == explicit \
+            and observed == default_at(stmts, pos) \
+            and any(s[0] == "proc" and s[2] == name for s in stmts) \
+            and any(s[0] == "iface" and s[1] == "generic" and s[2] == name and name in s[4] for s in stmts):
+        # the module procedure of that name comes first in process_attribs, takes the statement and deletes it
+        return F_SAME_NAME
     if has_prot and expected == "private" and observed == "protected":
         return F_PROT_PRIV
     if has_prot and explicit == "public" and expected == "protected" and observed == "public":
         return F_PROT_LOST
     if explicit is None and late_private and expected == "private" and observed in ("public", "protected"):
         return F_LATE
+    return None
+
+
+def classify_export(scope, stmts, tab, name, key, exp, got):
+    """class of a wrong entry of an export table.  The tables are filled from the permissions the entities have
+    when `_cleanup` runs: (1) the permission itself is wrong (also after correlate) - the same defect, the same
+    class; (2) the permission is right after correlate but was not yet when the tables were built - only the
+    constructor idiom (an interface named like a type takes the type's permission in correlate)."""
+    if scope != "m" or key is None:
+        return None
+    e, g = exp.get(key), got.get(key)
+    if e is None or g is None:
+        return None
+    if e != g:
+        return classify(scope, stmts, key, e, g)
+    if key[0] == "iface" and tab == "procs":
+        for t in stmts:
+            if t[0] == "type" and t[1] == name:
+                named = [s[1] for s in stmts if s[0] == "access" and name in s[2]]
+                if first_access(t[2]) is not None:
+                    return None if "e" in VARIANT else F_CTOR_ATTR
+                if first_access(named) is not None:
+                    return None if ("e" in VARIANT or "a" in VARIANT) else F_CTOR_STMT
     return None
 
 
@@ -431,6 +524,7 @@ class Names:
     def __init__(self, rng):
         self.rng = rng
         self.n = 0
+        self.last_generic = None
         self.ops = list(OPERATORS)
         rng.shuffle(self.ops)
 
@@ -516,12 +610,30 @@ def gen_decl(rng, nm, kind, attr="none", procs=None):
     if kind in ("subroutine", "function"):
         n = nm.new("s" if kind == "subroutine" else "f")
         return [], [("proc", kind == "function", n)], n
-    if kind == "generic":
+    if kind in ("generic", "specific"):
+        # a generic interface with 1-3 specific procedures: interface bodies (external procedures, entities of the
+        # module in their own right) and/or `module procedure` references; kind "specific": the entity of interest
+        # is one of the interface bodies
         n = nm.new("g")
-        if rng.random() < 0.5:
-            p = nm.new("sp")
-            return [("iface", "generic", n, ["mp_" + p])], [("proc", False, p)], n
-        return [("iface", "generic", n, [nm.new("ext")])], [], n
+        members, pr = [], []
+        for _ in range(rng.choice([1, 1, 2, 3])):
+            if rng.random() < 0.5:
+                q = nm.new("sp")
+                members.append("mp_" + q)
+                pr.append(("proc", rng.random() < 0.3, q))
+            else:
+                members.append(nm.new("ext"))
+        refs = [m[3:] for m in members if m.startswith("mp_")]
+        if kind == "generic" and refs and rng.random() < 0.2:
+            # a generic name may be the name of one of its specific procedures (F2018 15.4.3.4.1): one identifier,
+            # one accessibility - an access statement naming it applies to the generic and to the procedure
+            n = rng.choice(refs)
+        nm.last_generic = n
+        if kind == "specific":
+            x = nm.new("x")
+            members.insert(rng.randint(0, len(members)), x)
+            return [("iface", "generic", n, members)], pr, x
+        return [("iface", "generic", n, members)], pr, n
     if kind == "operator":
         n = nm.op()
         p = nm.new("fp")
@@ -545,7 +657,8 @@ def model_view(stmts):
     out = []
     for s in stmts:
         if s[0] == "iface":
-            out.append(("iface", s[1], s[2], [p[3:] if p.startswith("mp_") else p for p in s[3]]))
+            out.append(("iface", s[1], s[2], [p for p in s[3] if not p.startswith("mp_")],
+                        [p[3:] for p in s[3] if p.startswith("mp_")]))
         else:
             out.append(s)
     return out
@@ -559,7 +672,7 @@ def gen_context(rng, nm, n_items, default_private):
     spec, access, procs = [], [], []
     for _ in range(n_items):
         kind = rng.choice(["variable", "variable", "parameter", "type", "subroutine", "function", "generic",
-                           "abstract", "operator", "plain"])
+                           "abstract", "operator", "plain", "specific"])
         attr = "none"
         stmt = None
         r = rng.random()
@@ -586,6 +699,9 @@ def gen_context(rng, nm, n_items, default_private):
         access[:] = [(a[0], a[1], [n if x == "@next" else x for x in a[2]]) for a in access]
         if stmt:
             access.append(("access", stmt, [n]))
+        if kind == "specific" and rng.random() < 0.5:
+            # the generic the specific procedure belongs to gets an access statement of its own
+            access.append(("access", rng.choice(["public", "private"]), [nm.last_generic]))
         if kind == "type" and rng.random() < 0.3:
             # constructor idiom: a generic interface named like the type (same identifier, same accessibility)
             p = nm.new("cf")
@@ -636,7 +752,7 @@ def table_cells():
             ["none", "public-before", "public-after", "private-before", "private-after"],
             KINDS):
         # cells that cannot be written down at all
-        if a in ("public", "private") and k in ("subroutine", "function", "generic", "abstract", "operator"):
+        if a in ("public", "private") and k in ("subroutine", "function", "generic", "abstract", "operator", "specific"):
             continue  # no place for an attribute on these declarations
         if a == "protected" and k != "variable":
             continue  # PROTECTED is an attribute of variables only
@@ -659,7 +775,8 @@ def gen_table_case(rng, cell):
         scope = "s"
         spec, access, procs = [], [], []
         for _ in range(rng.randint(0, 2)):
-            sp_, pr_, _n = gen_decl(rng, nm, rng.choice(["variable", "type", "subroutine", "function", "generic", "abstract"]))
+            sp_, pr_, _n = gen_decl(rng, nm, rng.choice(["variable", "type", "subroutine", "function", "generic", "abstract",
+                                                         "specific"]))
             spec.append(sp_)
             procs += pr_
         if k in ("component", "binding"):
@@ -688,6 +805,9 @@ def gen_table_case(rng, cell):
         return scope, assemble(rng, spec, access, procs, mb, mpos)
     tgt, pr_, n = gen_decl(rng, nm, k, a)
     procs += pr_
+    if k == "specific" and rng.random() < 0.6:
+        # an access statement that names only the generic: it must not reach the specific procedure
+        access.append(("access", rng.choice(["public", "private"]), [nm.last_generic]))
     idx = rng.randint(0, len(spec))
     spec.insert(idx, tgt)
     if s != "none":
@@ -725,7 +845,7 @@ def gen_wild_case(rng):
             stmts.append(("access", word, rng.sample(pool, k) + ([nm.new("undecl")] if rng.random() < 0.15 else [])))
         else:
             kind = rng.choice(["variable", "variable", "parameter", "type", "generic", "abstract", "operator", "plain",
-                               "subroutine", "function", "ctor"])
+                               "subroutine", "function", "ctor", "specific"])
             if kind == "operator" and not nm.ops:
                 kind = "generic"
             if kind == "ctor":
@@ -760,6 +880,10 @@ def gen_wild_case(rng):
             procs += pr_
             names.append(n)
             names += [x for s in out if s[0] == "var" for x in s[1][1:]]
+            if kind in ("generic", "specific"):
+                # the generic and (some of) its interface bodies can be named in access statements too
+                names += [x for s in out if s[0] == "iface" for x in [s[2]] + list(s[3])
+                          if x != n and not x.startswith("mp_") and rng.random() < 0.5]
     # late access statements too
     if names and rng.random() < 0.5:
         stmts.append(("access", rng.choice(["public", "private", "protected"]), rng.sample(names, 1)))
@@ -806,23 +930,122 @@ def observe_unit(m):
                 if i.procedure.permission != i.permission:
                     dyn_bad.append((cat, i.name.lower(), i.permission, i.procedure.permission))
             else:
-                for r in list(i.routines) + list(i.modprocs):
+                # interface bodies: procedures, shown with their own `permission` on the interface's page and
+                # exported under their own name; `module procedure` references: their stored value is never shown
+                for r in i.routines:
                     obs.append(("P", i.name.lower(), r.name.lower(), r.permission))
+                for r in i.modprocs:
+                    obs.append(("R", i.name.lower(), r.name.lower(), r.permission))
     pl = sorted(x.lower() for x in getattr(m, "public_list", []))
-    return sorted(obs), pl, dyn_bad
+    xp = sorted((tab, k.lower()) for tab, attr in TABS for k in getattr(m, attr, {}))
+    return sorted(obs), pl, dyn_bad, xp
 
 
 def parse_model(fields):
-    obs, pl = [], []
+    obs, pl, xp = [], [], []
     for f in fields:
         p = f.split(":")
         if p[0] == "E":
             obs.append(("E", p[1], p[2], p[3], p[4]))
-        elif p[0] in ("C", "N", "P"):
+        elif p[0] in ("C", "N", "P", "R"):
             obs.append((p[0], p[1], p[2], p[3]))
         elif p[0] == "L":
             pl.append(p[1])
-    return sorted(obs), sorted(pl)
+        elif p[0] == "X":
+            xp.append((p[1], p[2]))
+    return sorted(obs), sorted(pl), sorted(xp)
+
+
+PROBE_SAME = """module c04probe_1
+  private
+  public :: s
+  interface s
+    module procedure s
+  end interface s
+contains
+  subroutine s(x)
+    integer :: x
+    x = 1
+  end subroutine s
+end module c04probe_1
+"""
+PROBE_SPEC = """module c04probe_3
+  private
+  public :: x1
+  interface g
+    subroutine x1(a)
+      integer :: a
+    end subroutine x1
+  end interface g
+end module c04probe_3
+"""
+PROBE_CTOR = """module c04probe_2
+  type, private :: t
+    integer :: c
+  end type t
+  interface t
+    module procedure f
+  end interface t
+contains
+  function f() result(r)
+    type(t) :: r
+    r%c = 1
+  end function f
+end module c04probe_2
+"""
+
+
+def probe_variant(ford, d: Path):
+    """Which of the two places where a candidate repair changes the mechanism does the code under test have?
+    Decided on the real code (parse only, no correlate):
+      * `private` + `public :: s` + generic interface s + its specific module procedure s (legal: a generic name
+        may be the name of one of its specific procedures): does the interface see the access statement too
+        ('a': attr_dict entry forgotten after the loop) or only the first entity of that name, the subroutine
+        ('p': per entity, the code as it is);
+      * `type, private :: t` + interface t in a default-public module: is the constructor already private when the
+        export tables are built ('e') or only after correlate ('')?
+      * `private` + `public :: x1` + interface g with the interface body x1: does process_attribs hand the statement
+        to the specific procedure ('s') or not ('')?
+    Returns (variant string, problem or None)."""
+    import shutil
+    import ford.sourceform as sf
+    from ford.fortran_project import Project
+    from ford.settings import ProjectSettings
+
+    src = d / "probe"
+    src.mkdir(parents=True, exist_ok=True)
+    (src / "p1.f90").write_text(PROBE_SAME)
+    (src / "p2.f90").write_text(PROBE_CTOR)
+    (src / "p3.f90").write_text(PROBE_SPEC)
+    sf.namelist = sf.NameSelector()
+    settings = ProjectSettings(src_dir=[src], display=["public", "private", "protected"], dbg=True,
+                               preprocess=False, graph=False, search=False, warn=False)
+    with common.quiet():
+        project = Project(settings)
+    mods = {m.name.lower(): m for m in project.modules}
+    shutil.rmtree(src)
+    m1, m2 = mods["c04probe_1"], mods["c04probe_2"]
+    problem = None
+    s1, i1 = m1.subroutines[0].permission, m1.interfaces[0].permission
+    if (s1, i1) == ("public", "private"):
+        v = "p"
+    elif (s1, i1) == ("public", "public"):
+        v = "a"
+    else:
+        v = "p"
+        problem = (f"probe 1 (`private`, `public :: s`, interface s, subroutine s): subroutine {s1}, interface {i1} "
+                   "after process_attribs - neither the per-entity nor the after-loop deletion order")
+    if m2.types[0].permission != "private":
+        problem = f"probe 2 (`type, private :: t`): type is {m2.types[0].permission}"
+    if "t" not in m2.pub_procs:
+        v += "e"
+    m3 = mods["c04probe_3"]
+    x1 = [r.permission for i in m3.interfaces for r in i.routines]
+    if x1 == ["public"]:
+        v += "s"
+    elif x1 != ["private"]:
+        problem = f"probe 3 (`private`, `public :: x1`, interface g with body x1): specific procedure reports {x1}"
+    return v, problem
 
 
 def run_impl(ford, d: Path, cases):
@@ -891,8 +1114,22 @@ def run(tier: str, seed: int, replay: str | None = None) -> int:
         c.append(render(rng, c[2], name, c[3]))
         c.append(name)
 
+    # which variant of the mechanism does the code under test have? (probe of the real code)
+    global VARIANT
+    with common.scratch_dir() as d0:
+        try:
+            VARIANT, problem = probe_variant(ford, Path(d0))
+        except Exception as e:  # the probe modules could not be parsed
+            VARIANT, problem = "p", f"probe failed: {type(e).__name__}: {e}"
+    if problem:
+        rep.tie_broken("variant probe: " + problem)
+    if table and bool(table.get("specLoopInSource")) != ("s" in VARIANT):
+        rep.tie_broken(f"variant probe: process_attribs {'has' if table.get('specLoopInSource') else 'has no'} loop over the "
+                       f"interface bodies of generic interfaces in the source, but the probe found the specific procedure "
+                       f"{'reached' if 's' in VARIANT else 'not reached'} by the access statement")
+
     # model
-    reqs = [["c04.run", c[2]] + [enc_stmt(s) for s in model_view(c[3])] for c in cases]
+    reqs = [["c04.run", VARIANT, c[2]] + [enc_stmt(s) for s in model_view(c[3])] for c in cases]
     model = drv.batch(reqs)
 
     hist_cells: dict[str, int] = {}
@@ -900,7 +1137,7 @@ def run(tier: str, seed: int, replay: str | None = None) -> int:
     hist_legal: dict[str, int] = {}
     distinct = set()
     samples = []
-    n_corr_bad = n_oracle_fail = n_entities = n_legal = 0
+    n_corr_bad = n_oracle_fail = n_entities = n_legal = n_exports = n_specifics = 0
     spec_reqs = []
     spec_exp = []
     with common.scratch_dir() as d:
@@ -914,21 +1151,25 @@ def run(tier: str, seed: int, replay: str | None = None) -> int:
                 if mo[0] != "ok":
                     rep.tie_broken(f"driver rejected {name}: {mo}", case)
                     continue
-                mobs, mpl = parse_model(mo[1:])
+                mobs, mpl, mxp = parse_model(mo[1:])
                 u = units.get(name)
                 if u is None:
                     n_corr_bad += 1
                     rep.tie_broken(f"implementation did not produce unit {name} (parse error?)", dict(case, log=log[-400:]))
                     continue
-                iobs, ipl, dyn_bad = observe_unit(u)
+                iobs, ipl, dyn_bad, ixp = observe_unit(u)
                 if scope == "s":
                     mpl = ipl  # a submodule's public_list is not observable (deleted / unused)
-                if iobs != mobs or ipl != mpl:
+                    mxp = ixp  # nothing of a submodule is accessible by use association: its tables are unused
+                if iobs != mobs or ipl != mpl or ixp != mxp:
                     n_corr_bad += 1
                     diff = sorted(set(iobs) ^ set(mobs))[:8]
                     rep.tie_broken(f"correspondence {stream}: model and implementation differ on {name}: {diff}"
-                                   + ("" if ipl == mpl else f" public_list impl={ipl} model={mpl}"),
-                                   dict(case, impl=iobs, model=mobs, impl_public_list=ipl, model_public_list=mpl))
+                                   + ("" if ipl == mpl else f" public_list impl={ipl} model={mpl}")
+                                   + ("" if ixp == mxp else f" export tables impl-only={sorted(set(ixp) - set(mxp))} "
+                                                            f"model-only={sorted(set(mxp) - set(ixp))}"),
+                                   dict(case, variant=VARIANT, impl=iobs, model=mobs, impl_public_list=ipl,
+                                        model_public_list=mpl, impl_exports=ixp, model_exports=mxp))
                 why = legality(scope, stmts)
                 hist_legal[why or "legal"] = hist_legal.get(why or "legal", 0) + 1
                 if cell:
@@ -955,7 +1196,10 @@ def run(tier: str, seed: int, replay: str | None = None) -> int:
                             got[("comp", o[1], o[2])] = o[3]
                         elif o[0] == "N":
                             got[("bind", o[1], o[2])] = o[3]
+                        elif o[0] == "P":
+                            got[("spec", o[1], o[2])] = o[3]
                     n_entities += len(exp)
+                    n_specifics += sum(1 for k in exp if k[0] == "spec")
                     if len(samples) < 3 and cell and cell[0].endswith("late") and cell[3] in ("type", "variable", "generic"):
                         samples.append({"cell": cell, "source": text, "observed": {":".join(k): v for k, v in got.items()}})
                     for key in sorted(set(exp) | set(got)):
@@ -965,6 +1209,21 @@ def run(tier: str, seed: int, replay: str | None = None) -> int:
                             fid = classify(scope, model_view(stmts), key, e, g) if e and g else None
                             rep.failing_input(dict(case, entity=list(key), expected=e, observed=g,
                                                    why=f"{key}: Fortran says {e}, FORD says {g}"), fid)
+                    # what the module hands to other scopes by use association
+                    if scope == "m":
+                        xexp, xkeys = spec_exports(exp)
+                        n_exports += len(xkeys)
+                        for tn in sorted(set(xexp) | set(ixp)):
+                            if (tn in xexp) != (tn in ixp):
+                                n_oracle_fail += 1
+                                key = xkeys.get(tn)
+                                fid = classify_export(scope, model_view(stmts), tn[0], tn[1], key, exp, got)
+                                e = "accessible" if tn in xexp else "not accessible"
+                                g = "listed" if tn in ixp else "not listed"
+                                rep.failing_input(dict(case, entity=list(key) if key else list(tn), export_table="pub_" + tn[0],
+                                                       expected=e, observed=g,
+                                                       why=f"pub_{tn[0]}[{tn[1]}]: Fortran says {e} by use association, "
+                                                           f"FORD's table has it {g}"), fid)
                     # the Lean specification agrees with the Python oracle (module entities)
                     if scope == "m":
                         for s in model_view(stmts):
@@ -986,10 +1245,12 @@ def run(tier: str, seed: int, replay: str | None = None) -> int:
                                 ents = [((("func" if s[1] else "sub"), s[2]), [])]
                             elif s[0] == "iface" and s[1] != "generic":
                                 ents = [((("absiface" if s[1] == "abstract" else "iface"), p), []) for p in s[3]]
-                            elif s[0] == "iface" and not any(t[0] == "type" and t[1] == s[2] for t in stmts):
-                                ents = [(("iface", s[2]), [])]
+                            elif s[0] == "iface":
+                                ents = [(("spec", s[2], q), []) for q in s[3]]
+                                if not any(t[0] == "type" and t[1] == s[2] for t in stmts):
+                                    ents.append((("iface", s[2]), []))
                             for key, attrs in ents:
-                                spec_reqs.append(["c04.spec", "".join(acode(a) for a in attrs), key[1]]
+                                spec_reqs.append(["c04.spec", "".join(acode(a) for a in attrs), key[-1]]
                                                  + [enc_stmt(x) for x in model_view(stmts)])
                                 spec_exp.append((exp[key], name, key))
         got = drv.batch(spec_reqs)
@@ -1010,6 +1271,12 @@ def run(tier: str, seed: int, replay: str | None = None) -> int:
         table_cells=len(cells),
         embeddings_per_cell=reps,
         entities_checked_by_oracle=n_entities,
+        specific_procedures_checked_by_oracle=n_specifics,
+        export_table_entries_checked_by_oracle=n_exports,
+        variant_of_code_under_test={"probe": VARIANT,
+                                    "attr_dict_entry_deleted": "after the loop" if "a" in VARIANT else "per entity",
+                                    "constructor_takes_type_permission": "in _cleanup" if "e" in VARIANT else "in correlate",
+                                    "loop_over_interface_bodies": "s" in VARIANT},
         legal_programs=n_legal,
         lean_spec_vs_python_oracle=len(spec_reqs),
         lean_spec_disagreements=n_spec_bad,
@@ -1025,6 +1292,10 @@ def run(tier: str, seed: int, replay: str | None = None) -> int:
         "side only; it is exercised by random case / spacing / '::' variants of every rendered statement",
         "folding of accessibility and PROTECTED into FORD's single permission value: private > protected > public",
         "names are compared lower-cased; `operator (+)` written with a blank is not generated",
+        "the stored permission of a `module procedure x` reference inside a generic interface (never displayed, never "
+        "exported) has no specification; it is compared with the model only",
+        "the variant of the model (attr_dict deletion order, place of the constructor step) is chosen by probing the "
+        "code under test with two fixed modules; a probe result that fits neither variant is a broken tie",
     ]
     return rep.finish(lean)
 
